@@ -827,7 +827,10 @@ fn dir_case(prop: &str, idx: u64, tmproot: &Path) -> CaseRec {
     std::fs::create_dir_all(dir.join("tmp")).unwrap();
     std::fs::create_dir_all(dir.join("docs/sub/deeper")).unwrap();
     let marker = dir.join("marker");
-    let places = ["docs/a.md", "docs/b.t", "docs/sub/c.markdown", "docs/sub/deeper/d.cram", "docs/sub/e.md", "docs/z.md"];
+    // a quarter of the runs: Markdown documents are the files matching a custom --match-markdown pattern, and a
+    // `.md` file in the tree is then no document (it holds a failing test that must not run)
+    let custom_match = idx % 4 == 0;
+    let places: [&str; 6] = if custom_match { ["docs/a.mdx", "docs/b.t", "docs/sub/c.mdx", "docs/sub/deeper/d.cram", "docs/sub/e.mdx", "docs/z.mdx"] } else { ["docs/a.md", "docs/b.t", "docs/sub/c.markdown", "docs/sub/deeper/d.cram", "docs/sub/e.md", "docs/z.md"] };
     let mut docs: Vec<EDoc> = vec![];
     let mut want_fail = false;
     for (di, rel) in places.iter().enumerate() {
@@ -853,21 +856,28 @@ fn dir_case(prop: &str, idx: u64, tmproot: &Path) -> CaseRec {
     want_fail |= linked.tests.iter().any(|(b, _)| matches!(b, Beh::BadOut));
     std::fs::create_dir_all(dir.join("outside")).unwrap();
     let (text, _) = render_doc(&linked, 8, &marker);
-    std::fs::write(dir.join("outside/f.md"), text).unwrap();
+    std::fs::write(dir.join(if custom_match { "outside/f.mdx" } else { "outside/f.md" }), text).unwrap();
+    if custom_match {
+        std::fs::write(dir.join("docs/decoy.md"), "# no\n\n```scrut\n$ echo D9T1 >> marker; false\nnever\n```\n").unwrap();
+    }
     let _ = std::os::unix::fs::symlink(dir.join("outside"), dir.join("docs/sub/linked"));
     // an explicitly named document outside the tree, before or after the directory
     let extra = EDoc { compat_skip: None, cram: false, broken: false, total: None, tests: vec![(Beh::Pass, None)] };
     let (text, _) = render_doc(&extra, 7, &marker);
-    std::fs::write(dir.join("extra.md"), text).unwrap();
+    let extra_name = if custom_match { "extra.mdx" } else { "extra.md" };
+    std::fs::write(dir.join(extra_name), text).unwrap();
     let extra_first = rng.chance(1, 2);
     let mut cmd = std::process::Command::new(scrut_bin());
     cmd.arg("test").arg("-r").arg("json");
+    if custom_match {
+        cmd.arg("--match-markdown").arg("*.mdx");
+    }
     if extra_first {
-        cmd.arg(dir.join("extra.md"));
+        cmd.arg(dir.join(extra_name));
     }
     cmd.arg(dir.join("docs"));
     if !extra_first {
-        cmd.arg(dir.join("extra.md"));
+        cmd.arg(dir.join(extra_name));
     }
     let out = cmd.current_dir(&dir).env("TMPDIR", dir.join("tmp")).env("NO_COLOR", "1").output().expect("run scrut");
     let code = out.status.code().unwrap_or(-1);
@@ -919,7 +929,7 @@ fn dir_case(prop: &str, idx: u64, tmproot: &Path) -> CaseRec {
         fails.push(("C20:exit-status".to_string(), format!("directory run: exit status {code}, expected {want_exit}; stderr {}", String::from_utf8_lossy(&out.stderr).chars().take(200).collect::<String>())));
     }
     let _ = std::fs::remove_dir_all(&dir);
-    CaseRec { op: "noop".into(), impl_out: "ok".into(), oracle_fail: keep(prop, fails), nontrivial: true, tags: vec!["e2e:directory".into(), format!("e2e:directory-docs={}", want.len())] }
+    CaseRec { op: "noop".into(), impl_out: "ok".into(), oracle_fail: keep(prop, fails), nontrivial: true, tags: vec!["e2e:directory".into(), format!("e2e:directory-docs={}", want.len()), format!("e2e:directory-custom-match={custom_match}")] }
 }
 
 fn gen_edoc(rng: &mut Rng, allow_broken: bool) -> EDoc {
